@@ -2549,7 +2549,7 @@ func c05NameGateEdges(fn *ssa.Function, depth int) []Edge {
 			te, _ := BoolTests(fn, Aliases(call.Value()))
 			gate = append(gate, te...)
 			nameArg := call.Common().Args[len(call.Common().Args)-1]
-			eq, _ := c05EqEdges(fn, func(v ssa.Value) bool { return SameValue(v, nameArg) }, func(v ssa.Value) bool { s, ok := constString(v); return ok && s == "" })
+			eq, _ := c05EmptyStrEdges(fn, func(v ssa.Value) bool { return SameValue(v, nameArg) })
 			gate = append(gate, eq...)
 			continue
 		}
